@@ -8,8 +8,23 @@ RULE = {"C02": "designed liquid scenarios (trees + chords with derived loss coef
 
 
 def main():
-    return ref.run_check("C06", RULE["C06"])
+    from . import core, c01
+    V = core.Verdicts("C06")
+    extra = c01.relational_part(V, "C06", "iso", core.tier(), core.seed())
+    rc1 = V.finish()
+    rc2 = ref.run_check("C06", RULE["C06"], extra_cov=extra, prior_violations=len(V.violations))
+    return 1 if (rc1 or rc2) else 0
 
 
 def replay(path):
+    import json
+    rec = json.load(open(path))
+    if "rel" in rec["case"]:
+        from . import pf, c04, c01
+        c = rec["case"]
+        an = {"J": [dict(lab=j["lab"], svc=j["svc"]) for j in c["net"]["J"]],
+              "E": [{k: e[k] for k in ("tbl", "lab", "a", "b", "et", "svc", "ca", "cj", "typ", "sec")} for e in c["net"]["E"]],
+              "N": [{k: n[k] for k in ("tbl", "lab", "j", "svc", "typ")} for n in c["net"]["N"]]}
+        print("relational case: re-run through ./check C06 (seeded by the case id); net:", json.dumps(an)[:300])
+        return 0
     return ref.replay_file("C06", path)
